@@ -212,7 +212,7 @@ def make_shell(rng, tier):
         return cc
     probe = factory(); probe._rebuild()
     n = probe.get_size() - len(probe.excluded_dofs)
-    h = d['plyt'] * len(d['stack'])
+    h = d.get('h') or d['plyt'] * len(d['stack'])
     # a prescribed twist and a load factor != 1: the full-size amplitude vector then carries prescribed entries that the
     # class scales by the load factor on its way in
     d['thetaTdeg'] = float(rng.choice([-1, 1]) * rng.uniform(0.01, 0.2))
